@@ -137,6 +137,9 @@ class Real:
 
     NON_DIALECT = ("flush_on_insert", "encoding", "access_mode", "create_dirs", "newline")
 
+    def passive(self):
+        return self.kind == "mem" or self.kwargs.get("flush_on_insert", True)
+
     def observe(self):
         """Contents observed WITHOUT operating the database object, so that the harness does not disturb the state under test:
         memory: plain iteration (no read decorator, no reindex); CSV with flush_on_insert: the file decoded by the independent reader."""
@@ -150,9 +153,16 @@ class Real:
             return csvref.decode(data, self.kwargs.get("encoding"), {k: v for k, v in self.kwargs.items() if k not in self.NON_DIALECT})
         return self.contents()
 
+    def do_close(self):
+        """Close the database the way the history says: explicitly, or by leaving a `with` block (documented as equivalent)."""
+        if getattr(self, "exit_via_context", False):
+            self.db.__exit__(None, None, None)
+        else:
+            self.db.close()
+
     def close(self):
         try:
-            self.db.close()
+            self.do_close()
         except Exception:
             pass
 
@@ -206,9 +216,11 @@ class Lockstep:
             r.close()
 
     # ---- the invariant after every step
-    def check_contents(self, what="contents", through_api=False):
+    def check_contents(self, what="contents", through_api=False, passive_only=False):
         exp = self.model.points
         for real in self.reals:
+            if passive_only and not real.passive():
+                continue
             got = self.call(real, what, real.contents if through_api else real.observe)
             if got != exp:
                 self.fail(what, real, "all(sorted=False) differs from the model: got %d points %s, expected %d points %s" % (len(got), brief(got), len(exp), brief(exp)))
@@ -217,6 +229,8 @@ class Lockstep:
     READS = ("probe", "probe_hit", "getters")
 
     def run(self, ops):
+        for r in self.reals:
+            r.exit_via_context = len(ops) % 2 == 1  # half of the histories close their databases through the context-manager exit
         try:
             for i, op in enumerate(ops):
                 self.log.append(op)
@@ -230,11 +244,16 @@ class Lockstep:
                 # that need "the very next operation" to manifest.  Configurations that cannot be observed passively
                 # (flush_on_insert=False) are read through the API, but not right before a read operation of the history.
                 nxt = ops[i + 1][0] if i + 1 < len(ops) else None
+                final_read = (len(ops) // 2) % 2 == 0
                 if not (self.defer_contents and nxt in self.READS and op[0] not in self.READS):
-                    self.check_contents()
+                    # after the last operation of a history that is closed without a final read, only passive observation is allowed
+                    self.check_contents(passive_only=(nxt is None and not final_read))
                 for h in self.step_hooks:
                     h(self, op)
-            self.check_contents("final-contents", through_api=True)
+            # one read through the API closes half of the histories; the other half is closed right after its last operation
+            # (a final read would flush whatever the last write left in a buffer)
+            if (len(ops) // 2) % 2 == 0:
+                self.check_contents("final-contents", through_api=True)
         finally:
             self.close()
 
@@ -481,7 +500,7 @@ class Lockstep:
     def op_reopen(self):
         for real in self.reals:
             if real.kind == "csv":
-                self.call(real, "close", real.db.close)
+                self.call(real, "close", real.do_close)
                 self.call(real, "reopen", real.open)
         self.flags.add("reopen")
 
